@@ -198,8 +198,9 @@ pub proof fn lemma_stamped_unread(ino: Inode, t: int, gran: int)
              'old(w).solo ==> (r.is_ok() ==> final(w).inodes[file.ino()].atime >= final(w).inodes[file.ino()].mtime && final(w).hard_faults == old(w).hard_faults)'),
             ('C18:error-is-a-real-fault', 'old(w).solo ==> (r.is_err() ==> final(w).hard_faults > old(w).hard_faults)'),
         ])
-    f.insert_before('if atime < mtime',
-                    'proof { filetime::lemma_lex_is_ns(atime, mtime); lemma_trunc(mtime.ns(), old(w).gran); }\n    ')
+    f.insert_after('let mtime = FileTime :: from_last_modification_time ( & meta ) ;',
+                   '\n    proof { filetime::lemma_lex_is_ns(atime, mtime); lemma_trunc(mtime.ns(), old(w).gran); }')
+    f.add_arg_if_present('FileTime :: now', TW)
 
     # ---- insert_or_update::run -------------------------------------------------------------
     u.text('pub mod insert_or_update {\nuse super::*;\n')
@@ -608,11 +609,16 @@ pub proof fn lemma_frame_restamp(old: World, a: World, b: World, ev: Seq<CachedF
     }
 }
 
+/// The first n reprieved entries that are still present have been re-stamped.
+pub open spec fn prefix_restamped(old: World, fin: World, mb: Seq<CachedFile>, n: int) -> bool {
+    forall|i: int| 0 <= i < n && fin.files.contains_key(rpath(#[trigger] mb[i])) ==> restamped(old.inode_at(rpath(mb[i])), fin.inode_at(rpath(mb[i])), old, fin)
+}
+
 /// Entries re-stamped earlier stay `restamped` after a later step that only re-stamps (or leaves alone).
 pub proof fn lemma_restamped_prefix(old: World, a: World, b: World, mb: Seq<CachedFile>, n: int, x: InodeId, complete: bool)
     requires
         0 <= n <= mb.len(),
-        complete ==> forall|i: int| 0 <= i < n && a.files.contains_key(rpath(#[trigger] mb[i])) ==> restamped(old.inode_at(rpath(mb[i])), a.inode_at(rpath(mb[i])), old, a),
+        complete ==> prefix_restamped(old, a, mb, n),
         b.files == a.files,
         forall|ino: InodeId| ino != x ==> #[trigger] b.inodes[ino] == a.inodes[ino],
         forall|p: PathV| #[trigger] a.files.contains_key(p) ==> old.files.contains_key(p) && a.files[p] == old.files[p],
@@ -677,20 +683,32 @@ pub proof fn lemma_restamped_prefix(old: World, a: World, b: World, mb: Seq<Cach
         ('C07 C17 C02:maintenance-frame-on-every-exit', 'maint_frame(*old(w), *w, ev, mb) && w.files == w1.files'),
         ('C07:victims-so-far-are-gone', 'w.hard_faults == old(w).hard_faults ==> forall|i: int| 0 <= i < ev.len() ==> !w.files.contains_key(rpath(#[trigger] ev[i]))'),
         ('C07 C09:reprieved-so-far-are-restamped',
-         'w.hard_faults == old(w).hard_faults ==> forall|i: int| 0 <= i < it2.index() && w.files.contains_key(rpath(#[trigger] mb[i])) ==> '
-         'restamped(old(w).inode_at(rpath(mb[i])), w.inode_at(rpath(mb[i])), *old(w), *w)'),
+         'w.hard_faults == old(w).hard_faults ==> prefix_restamped(*old(w), *w, mb, it2.index() as int)'),
         ('C06:linear-number-of-filesystem-calls', 'w.steps <= old(w).steps + ev.len() + it2.index() && w.opens == old(w).opens && w.published == old(w).published && w.listed == old(w).listed'),
     ])
-    au.insert_before('match move_to_back_of_list', 'let ghost wb = *w;\n        let ghost idx = it2.index() as int;\n        ')
-    au.insert_after('Ok ( ( ) ) => {',
-                    ' proof { assert(rpath(mb[idx]) == pbv(cached)); lemma_frame_restamp(*old(w), wb, *w, ev, mb, idx); '
-                    'lemma_restamped_prefix(*old(w), wb, *w, mb, idx, wb.files[rpath(mb[idx])], w.hard_faults == old(w).hard_faults); } ')
-    au.insert_after('Err ( e ) if is_absent_file_error ( & e ) => {',
-                    ' proof { assert(rpath(mb[idx]) == pbv(cached)); lemma_frame_same_fs(*old(w), wb, *w, ev, mb); '
-                    'lemma_restamped_prefix(*old(w), wb, *w, mb, idx, 0, w.hard_faults == old(w).hard_faults); } ')
-    au.insert_before('err => err ?', '', nth=0)
-    au.insert_after('err =>', ' { proof { lemma_frame_same_fs(*old(w), wb, *w, ev, mb); assert(idx < mb.len()); } ', nth=0)
-    au.insert_after('err => err ?', ' }', nth=0)
+    au.insert_before('match move_to_back_of_list',
+                     'let ghost wb = *w;\n        let ghost idx = it2.index() as int;\n'
+                     '        proof {\n'
+                     '            let p = rpath(mb[idx]);\n'
+                     '            assert(p == pbv(cached));\n'
+                     '            assert(idx < mb.len());\n'
+                     '            // whatever the call returns, the frame and the re-stamped prefix are re-established (no hint needed inside the arms)\n'
+                     '            assert forall|fin: World| #[trigger] fin.same_fs(wb) && fin.kept(wb) implies maint_frame(*old(w), fin, ev, mb)\n'
+                     '                && ((fin.hard_faults == old(w).hard_faults && !wb.files.contains_key(p)) ==> prefix_restamped(*old(w), fin, mb, idx + 1)) by {\n'
+                     '                lemma_frame_same_fs(*old(w), wb, fin, ev, mb);\n'
+                     '                if fin.hard_faults == old(w).hard_faults && !wb.files.contains_key(p) {\n'
+                     '                    lemma_restamped_prefix(*old(w), wb, fin, mb, idx, 0, true);\n'
+                     '                }\n'
+                     '            }\n'
+                     '            assert forall|fin: World| wb.files.contains_key(p) && fin.kept(wb)\n'
+                     '                && #[trigger] fin.only_inode_changed(wb, wb.files[p], stamped(wb.inode_at(p), fin.now, wb.gran)) implies maint_frame(*old(w), fin, ev, mb)\n'
+                     '                && (fin.hard_faults == old(w).hard_faults ==> prefix_restamped(*old(w), fin, mb, idx + 1)) by {\n'
+                     '                lemma_frame_restamp(*old(w), wb, fin, ev, mb, idx);\n'
+                     '                if fin.hard_faults == old(w).hard_faults {\n'
+                     '                    lemma_restamped_prefix(*old(w), wb, fin, mb, idx, wb.files[p], true);\n'
+                     '                }\n'
+                     '            }\n'
+                     '        }\n        ')
 
     u.text('''
 /// C17/C07/C02 on every exit of `prune`, without naming the plan: directories untouched, nothing created or
@@ -1334,7 +1352,7 @@ pub open spec fn write_frame(old: World, fin: World, base: PathV, name: Seq<u8>,
             ])
         f.body_start('broadcast use group_asref;\n        proof { lemma_cleanup_frame_same(*old(w), self.spec_base()); }')
         u.trait_methods[opname] = f
-        f.insert_before('dst . push ( name )', 'let ghost wm = *w;\n        proof { lemma_child(self.spec_base(), str_bytes(name)); lemma_ready_after_cleanup(*old(w), wm, pv(value), self.spec_base(), str_bytes(name)); }\n        ')
+        f.insert_after('let ret = self . maybe_cleanup ( & dst ) ? ;', '\n        let ghost wm = *w;\n        proof { lemma_child(self.spec_base(), str_bytes(name)); if valid_key(str_bytes(name)) { lemma_ready_after_cleanup(*old(w), wm, pv(value), self.spec_base(), str_bytes(name)); } }')
         f.insert_before('return Ok ( ret ) ;', 'proof { if w.hard_faults == old(w).hard_faults { assert(%s(*old(w), wm, *w, self.spec_base(), str_bytes(name), pv(value), ret.is_some())); } }\n            ' % exact)
         f.insert_before('std :: fs :: create_dir_all', 'let ghost w1 = *w;\n        ', nth=0)
         f.insert_after('. expect ( "must have parent" ) ) ? ;', '\n        let ghost w2 = *w;\n        proof { lemma_ready_after_retry(wm, w1, w2, pv(value), self.spec_base(), str_bytes(name)); }', nth=0)
